@@ -1230,3 +1230,84 @@ def kb9(P, C):
          "the reader refuses orders above %s: the %d order-sized stack arrays of the evaluation path are bounded" % (bound[1], len(sized)) if bound else
          "the reader accepts any ORDERn that is consistent with the knot and coefficient counts; %d stack arrays of lookup and evaluation are sized by it "
          "(e.g. %s in %s): a consistent file with a large enough order makes evaluation overrun the stack" % (len(sized), sized[0][2], sized[0][0].name))
+
+
+def kb10(P, C):
+    """KB-10: an argument container subscripted at a fixed position is long enough."""
+    from . import vg
+    C.rule("KB-10", "where a public operation of the table subscripts one of its container arguments at a fixed position (`tables[1]`, "
+           "`coordinates[coordinates.size()-2]` in the stacking constructor), a throwing guard on that container's size — directly, or on the "
+           "size of the container it is required to match — dominates the access: an `assert` states the belief and disappears with NDEBUG, "
+           "and `size() >= 1` is not what `[1]` needs", floor=2)
+    n = 0
+    for f in sorted(P.functions.values(), key=lambda g: (g.file, g.line)):
+        if f.unit != "driver" or f.cls != ts.CLS or f.kind not in ("method", "ctor", "constructor", "function") or not f.cfg:
+            continue
+        params = {p["id"]: p for p in f.params if "vector" in p.get("type", "")}
+        if not params:
+            continue
+        pos = f.node_positions()
+        dom = f.dominators()
+        need = {}
+        for i in f.walk():
+            n_ = f.nodes[i]
+            if n_["k"] != "CXXOperatorCallExpr" or n_.get("opcall") != "[]" or len(n_["ch"]) < 3:
+                continue
+            base = f.strip(n_["ch"][1])
+            if f.k(base) != "DeclRefExpr" or f.nodes[base]["decl"].get("id") not in params:
+                continue
+            idx = f.strip(n_["ch"][2])
+            t = f.render(idx).replace(" ", "")
+            k = None
+            if "cv" in f.nodes[idx]:
+                k = f.nodes[idx]["cv"] + 1                       # [k] needs size >= k+1
+            else:
+                m = re.match(r"\(?%s\.size\(\)-(\d+)\)?$" % re.escape(f.nodes[base]["decl"]["name"]), t)
+                if m:
+                    k = int(m.group(1))                           # [size-k] needs size >= k
+            if k is None or k < 2:
+                continue
+            pid = f.nodes[base]["decl"]["id"]
+            if pid not in need or need[pid][0] < k:
+                need[pid] = (k, i)
+        if not need:
+            continue
+        # throwing guards on sizes: P.size() < K  /  P.size() != Q.size()
+        lower = {}
+        same = []
+        for g in vg.guards_of(f):
+            for x in f.walk(f.nodes[g["node"]]["cond"]):
+                n_ = f.nodes[x]
+                if n_["k"] != "BinaryOperator" or n_.get("op") not in ("<", "<=", "!=", "=="):
+                    continue
+                a, b = (f.strip(y) for y in n_["ch"])
+
+                def size_of(y):
+                    if f.k(y) == "CXXMemberCallExpr" and (f.nodes[y].get("callee") or {}).get("name") in ("size",):
+                        me = f.strip(f.nodes[y]["ch"][0])
+                        o = f.strip(f.ch(me)[0]) if f.ch(me) else -1
+                        if o >= 0 and f.k(o) == "DeclRefExpr" and f.nodes[o]["decl"].get("id") in params:
+                            return f.nodes[o]["decl"]["id"]
+                    return None
+                sa, sb = size_of(a), size_of(b)
+                if sa is not None and "cv" in f.nodes[b] and n_["op"] in ("<", "<="):
+                    lower[sa] = max(lower.get(sa, 0), f.nodes[b]["cv"] + (1 if n_["op"] == "<=" else 0))
+                if sa is not None and sb is not None and n_["op"] == "!=":
+                    same.append((sa, sb))
+        changed = True
+        while changed:
+            changed = False
+            for (a, b) in same:
+                for x, y in ((a, b), (b, a)):
+                    if lower.get(x, 0) > lower.get(y, 0):
+                        lower[y] = lower[x]
+                        changed = True
+        for pid, (k, i) in sorted(need.items()):
+            n += 1
+            ok = lower.get(pid, 0) >= k
+            C.ob("KB-10", ts.fshort(f), "argument-long-enough:%s" % params[pid]["name"], ok, f.loc(i),
+                 "%s is refused by exception unless it has at least %d elements" % (params[pid]["name"], lower.get(pid, 0)) if ok else
+                 "%s is subscripted at a position that needs %d elements (%s); the throwing guards establish %d — an assert is not a check" %
+                 (params[pid]["name"], k, f.render(i)[:50], lower.get(pid, 0)))
+    if n == 0:
+        raise core.AnalysisBroken("KB-10: no container argument subscripted at a fixed position (the stacking constructor's tables/coordinates expected)")
